@@ -23,7 +23,8 @@ IMPORTS = "From PV Require Import C04.Model C04.Spec.\n"
 CAP = 9            # watchdog: the test LM refuses idx >= CAP (only reachable with max_iters=None)
 NINF = -float("inf")
 TOL = 1e-9
-THEOREMS = ["c04_beam_scores_chain", "c04_beam_paths_distinct", "c04_beam_eos_first", "c04_beam_sorted_inf_last",
+THEOREMS = ["c04_search_refines", "c04_beam_invariant", "c04_beam_shape", "c04_beam_scores_chain",
+            "c04_beam_paths_distinct", "c04_beam_eos_first", "c04_beam_sorted_inf_last",
             "c04_beam_exhaustive_when_wide", "c04_beam_batch_independent"]
 
 
@@ -53,6 +54,9 @@ def _lm_class():
                 self.max_idx = max(self.max_idx, t)
                 if t >= CAP:
                     raise _Watchdog()
+                if t > hist.size(0):
+                    # documented contract of calc_idx_log_probs: idx in [0, hist.size(0)]
+                    raise _IdxContract(f"idx {t} > hist.size(0) {hist.size(0)}")
                 s = prev["s"]
                 assert torch.equal(prev["aux"][:, 1], s), "test LM: aux and s out of step"
                 if t > 0:
@@ -69,6 +73,10 @@ def _lm_class():
 
 
 class _Watchdog(Exception):
+    pass
+
+
+class _IdxContract(Exception):
     pass
 
 
@@ -89,6 +97,8 @@ def _search_once(case, inits, N):
         y, lens, lp = bs(init, N, case["max_iters"])
     except _Watchdog:
         return {"watchdog": True}
+    except _IdxContract as e:
+        return {"exc": "LMContract", "msg": str(e)[:200]}
     except Exception as e:  # noqa: BLE001
         return {"exc": exc_kind(e), "msg": str(e)[:200]}
     if N is None:
@@ -392,6 +402,24 @@ def gen_search(rng):
                 pad=rng.choice([-100, -100, -1, 0, 1, V + 3, eos if eos is not None else 2]), max_iters=mi, N=N, inits=inits)
 
 
+def gen_zero_prob(rng):
+    """finish_all_paths, zero-probability tokens, beam wider than the vocabulary: unusable -inf slots stay
+    in the beam next to finished paths."""
+    while True:
+        c = gen_search(rng)
+        if c["eos"] is None or c["V"] < 2:
+            continue
+        V = c["V"]
+        c["table"] = gen_table(rng, c["M"], V, c["eos"] % V, 0.5)
+        c["fin_all"] = True
+        if c["max_iters"] is None:
+            c["max_iters"] = rng.randint(2, 6)
+        c["N"] = rng.choice([None, 1, 2, 3])
+        c["inits"] = [rng.randrange(c["M"]) for _ in range(c["N"] or 1)]
+        c["width"] = rng.choice([V + 1, V + 2, 2 * V + 1, 3 * V])
+        return c
+
+
 FIXED_TABLES = [  # (M, a, b, c, table) for V=2 ; logits in units of 1/64
     (5, 2, 1, 1, [[48, -33], [-81, 64], [3, 17], [-20, 29], [70, -5]]),
     (7, 3, 2, 1, [[-113, 32], [97, 15], [16, -49], [-32, -67], [5, 6], [-90, 41], [12, 100]]),
@@ -434,6 +462,30 @@ def _same_elem(a, b):
         if x is not None and (x[0] != y[0] or x[1] != y[1] or not (abs(x[2] - y[2]) <= TOL)):
             return False
     return True
+
+
+def no_growth_class(case):
+    """inputs on which forward() can stop growing y while the loop goes on: an element whose finite-score
+    paths have all finished is kept alive (finish_all_paths) by unusable -inf slots shorter than S; needs
+    zero-probability tokens (with all-finite rows every unfinished element has a full-length path)."""
+    return case["eos"] is not None and case["fin_all"] and not _all_finite(case)
+
+
+def is_no_growth_exc(res):
+    return res.get("exc") == "LMContract" or (res.get("exc") == "RuntimeError" and "must match the size of tensor" in res.get("msg", ""))
+
+
+def sig_no_growth(entry, record):
+    """known-findings signature: {"kind": "no_growth_raise"} matches a record whose case is in the
+    no-growth class and whose failure is exactly one of the two raises this causes (LM asked for
+    idx > hist.size(0); shape mismatch in the freeze torch.where), in the batch or in an element alone."""
+    sg = entry.get("signature", {})
+    if sg.get("kind") != "no_growth_raise":
+        return False
+    if not no_growth_class(record["case"]):
+        return False
+    outs = [record.get("impl")] + [d for d in [(record.get("detail") or {}).get("alone")] if isinstance(d, dict)]
+    return any(isinstance(o, dict) and is_no_growth_exc(o) for o in outs)
 
 
 def batch_independent(case, res):
@@ -517,7 +569,7 @@ def run_search_cases(chk, cases, meta_budget):
         c.pop("stream", None)
         results.append(run_impl(c))
     verdicts = _eval3(chk, cases, results, "srch")
-    bad, spec_bad = [], []
+    bad, spec_bad, exc_bad = [], [], []
     for i, (c, r, (tied, ok, spec)) in enumerate(zip(cases, results, verdicts)):
         chk.count("search:V=%d" % c["V"])
         chk.count("search:eos=" + ("unset" if c["eos"] is None else "set"))
@@ -535,6 +587,9 @@ def run_search_cases(chk, cases, meta_budget):
             chk.count("search:steps=%d" % r["S"])
             if any(o is None for row in r["out"] for o in row):
                 chk.count("search:has_unusable_slots")
+        if "exc" in r:
+            exc_bad.append(i)
+            continue
         if tied:
             chk.count("search:skipped_near_tie")
             continue
@@ -550,6 +605,34 @@ def run_search_cases(chk, cases, meta_budget):
             return (not tied) and not (spec if kind == "spec" else ok)
         return f
 
+    nrep = 0
+    for i in exc_bad:
+        # forward() raised on a valid input: nothing is returned where the property promises a beam
+        c, r = cases[i], results[i]
+        alone = None
+        if c["N"] is not None and c["N"] >= 1:
+            alone = [_search_once(c, [s0], 1) for s0 in c["inits"]]
+        rec = {"case": c, "impl": r, "alone_raises": None if alone is None else ["exc" in a for a in alone],
+               "what": "BeamSearch raised %s (%s) on a valid input%s" % (
+                   r["exc"], r.get("msg", "")[:90],
+                   "; every element searched alone returns a beam" if alone and not any("exc" in a for a in alone) else ""),
+               "correspondence": "corr:C04:BeamSearch.__call__", "theorems_at_stake": THEOREMS}
+        if chk.known_match(sig_no_growth, rec) is not None:
+            chk.report(rec, sig_no_growth)
+            continue
+        if nrep >= 2:
+            continue
+        nrep += 1
+        small = shrink(c, lambda x: "exc" in run_impl(x), _search_cands, budget=25)
+        rs = run_impl(small)
+        rec = dict(rec, case=small, impl=rs, alone_raises=None)
+        if small["N"] is not None and small["N"] >= 1:
+            al = [_search_once(small, [s0], 1) for s0 in small["inits"]]
+            rec["alone_raises"] = ["exc" in a for a in al]
+        rec["what"] = "BeamSearch raised %s (%s) on a valid input%s" % (
+            rs.get("exc"), rs.get("msg", "")[:90],
+            "; every element searched alone returns a beam" if rec["alone_raises"] and not any(rec["alone_raises"]) else "")
+        chk.report(rec, sig_no_growth)
     for i in spec_bad[:3]:
         # concrete failing inputs: the implementation's own output is rejected by the spec checker
         case = shrink(cases[i], fails("spec"), _search_cands, budget=20)
@@ -578,6 +661,9 @@ def run_search_cases(chk, cases, meta_budget):
         chk.count("meta:batch_vs_alone")
         if staggered:
             chk.count("meta:elements_finish_at_different_steps")
+        if not ok and chk.known_match(sig_no_growth, {"case": c, "impl": r, "detail": detail}) is not None:
+            chk.report({"case": c, "impl": r, "detail": detail}, sig_no_growth)
+            continue
         if not ok:
             nrep += 1
             small = shrink(c, lambda x: not batch_independent(x, run_impl(x))[0], _search_cands, budget=20)
@@ -587,7 +673,7 @@ def run_search_cases(chk, cases, meta_budget):
                 small, r2, detail2 = c, r, detail
             chk.report({"case": small, "impl": r2, "detail": detail2,
                         "what": "a batch element's beam differs from the beam of that element searched alone",
-                        "theorems_at_stake": ["c04_beam_batch_independent"]})
+                        "theorems_at_stake": ["c04_beam_batch_independent"]}, sig_no_growth)
     return results
 
 
@@ -662,7 +748,12 @@ def run(chk, cases=None):
         "sums are compared with tolerance 1e-9 (regime T), decisions kept at margin 1e-6",
         "slots with score -inf are compared only by position (torch.topk's tie-break among -inf candidates is unspecified)",
         "cells of y beyond y_lens are not compared (documented as invalid)",
+        "the test LM acts row-wise on the batch and reads only hist[idx-1] and its own state; it refuses idx > hist.size(0) "
+        "(the documented contract of calc_idx_log_probs) and idx >= %d (watchdog for max_iters=None)" % CAP,
+        "an exception raised by forward() on a valid input is a failing input (nothing is returned); the model does not "
+        "describe exceptions",
     ]
+    chk.extra["trusted_base"] = ["float64 rounding of sums in the implementation is bounded by the 1e-9 tolerance, not modelled"]
     torch.set_num_threads(1)
     if cases is not None:
         s = [c for c in cases if c.get("kind") == "search"]
@@ -688,6 +779,7 @@ def run(chk, cases=None):
     corpus = [c for c in load_corpus("C04") if isinstance(c, dict)]
     corpus = [dict(c.get("case", c), stream="corpus") for c in corpus]
     rnd = [dict(gen_search(chk.rng), stream="random") for _ in range(6000 if thorough else 500)]
+    rnd += [dict(gen_zero_prob(chk.rng), stream="zero-prob") for _ in range(600 if thorough else 80)]
     allc = ex + [c for c in corpus if c.get("kind") == "search"] + rnd
     streams = [c.get("stream", "random") for c in allc]
     results = run_search_cases(chk, allc, meta_budget=(1500 if thorough else 150))
